@@ -45,7 +45,7 @@ ASSUMPTIONS = [
     "callbacks and devices are required for internal-address telegrams only when no device on that address raises for it (the statement demands liveness, not delivery, after a device error); for all telegrams they must never be invoked more than once",
     "unexpected exception types raised by the interface are Exception subclasses (ValueError, OSError, RuntimeError, TimeoutError), not BaseException/CancelledError",
     "destination 0 (broadcast) and individual addresses are not generated: they are not group telegrams",
-    "a queue restart (stop() then start() on the same instance) is part of the generated histories; stop() is only called while the interface plan lets pending sends finish",
+    "a queue restart (stop() then start() on the same instance) is part of the generated histories; the 1/r spacing is not demanded between the last send before and the first send after a restart",
 ]
 
 BASE_SRC = 0x1100
@@ -124,7 +124,7 @@ def execute(case):
     from xknx.telegram import IndividualAddress, Telegram, TelegramDirection
     from xknx.telegram.address import GroupAddress
 
-    res: dict = {"cb_calls": [], "dev_calls": [], "stalled": [], "sent": [], "after_join": None, "after_stop": None, "join_time": None, "stop_time": None}
+    res: dict = {"cb_calls": [], "dev_calls": [], "stalled": [], "raised": [], "restart_marks": [], "sent": [], "after_join": None, "after_stop": None, "join_time": None, "stop_time": None}
     bound = _bound(case)
     saved_fmt = GroupAddress.address_format
 
@@ -192,6 +192,11 @@ def execute(case):
                     res["stalled"].append("restart-stop")
                     ok = False
                     break
+                except (asyncio.CancelledError, Exception) as e:  # noqa: BLE001 - stop() itself raised
+                    res["raised"].append(("restart-stop", type(e).__name__, exc_site(e)))
+                    ok = False
+                    break
+                res["restart_marks"].append(len(h.stub.sent))
                 await xknx.telegram_queue.start()
         if ok:
             t0 = loop.time()
@@ -201,6 +206,8 @@ def execute(case):
                 res["after_join"] = (xknx.telegrams.qsize(), xknx.telegrams._unfinished_tasks, xknx.telegram_queue.outgoing_queue.qsize(), xknx.telegram_queue.outgoing_queue._unfinished_tasks, h.stub.inflight)
             except TimeoutError:
                 res["stalled"].append("join")
+            except (asyncio.CancelledError, Exception) as e:  # noqa: BLE001
+                res["raised"].append(("join", type(e).__name__, exc_site(e)))
             t0 = loop.time()
             try:
                 await asyncio.wait_for(xknx.telegram_queue.stop(), bound)
@@ -208,6 +215,8 @@ def execute(case):
                 res["after_stop"] = (xknx.telegrams.qsize(), xknx.telegrams._unfinished_tasks, xknx.telegram_queue.outgoing_queue.qsize(), xknx.telegram_queue.outgoing_queue._unfinished_tasks, h.stub.inflight)
             except TimeoutError:
                 res["stalled"].append("stop")
+            except (asyncio.CancelledError, Exception) as e:  # noqa: BLE001
+                res["raised"].append(("stop", type(e).__name__, exc_site(e)))
         for rec in h.stub.sent:
             tg = rec["telegram"]
             res["sent"].append({"i": (tg.source_address.raw - BASE_SRC) if tg is not None else None, "t": rec["t"], "t_done": rec["t_done"], "outcome": rec["outcome"], "dst": str(tg.destination_address) if tg is not None else None})
@@ -232,14 +241,23 @@ def judge(ctx, case, res) -> bool:
     tgs = [op[1] for op in case["ops"] if op[0] == "tg"]
     restarted = any(op[0] == "restart" for op in case["ops"])
     tag = ":after-restart" if restarted else ""
-    for s in res["stalled"]:
-        ctx.fail(f"C33:queue-stalled:{s}{tag}", case, f"{s} did not return within {_bound(case):.1f} virtual seconds; sends so far {[(s_['i'], s_['t'], s_['outcome']) for s_ in res['sent']]}")
+    symptoms = [f"{s_} did not return within {_bound(case):.1f} virtual seconds" for s_ in res["stalled"]] + [f"{what}() raised {site}" for what, _t, site in res["raised"]]
+    if symptoms:
+        sends_so_far = [(s_["i"], s_["t"], s_["outcome"]) for s_ in res["sent"]]
+        if restarted:
+            # one root-cause bucket for "the restarted queue does not work", split by rate limiting on/off
+            ctx.fail(f"C33:queue-dead-after-restart:{'rate-limited' if case['rate'] else 'no-rate-limit'}", case, "; ".join(symptoms) + f"; sends so far {sends_so_far}")
+        else:
+            for s_ in res["stalled"]:
+                ctx.fail(f"C33:queue-stalled:{s_}", case, f"{s_} did not return within {_bound(case):.1f} virtual seconds; sends so far {sends_so_far}")
+            for what, tname, site in res["raised"]:
+                ctx.fail(f"C33:{what}-raised:{tname}", case, f"{what}() raised {site}; sends so far {sends_so_far}")
     for e in res["escaped"]:
         ctx.fail(f"C33:escaped:{type(e['exception']).__name__}{tag}", case, e["repr"] + " " + e["message"])
     internal = {i for i, t in enumerate(tgs) if isinstance(t["dst"], str)}
     expected = [i for i, t in enumerate(tgs) if t["dir"] == "out" and i not in internal]
     sent = [s["i"] for s in res["sent"]]
-    stalled = bool(res["stalled"])
+    stalled = bool(res["stalled"]) or bool(res["raised"])
     # (1) never to the interface: internal addresses (and nothing that was not an outgoing telegram)
     for i in sent:
         if i in internal:
@@ -271,7 +289,9 @@ def judge(ctx, case, res) -> bool:
     # (4) rate limit
     r = case["rate"]
     if r:
-        for a, b in zip(res["sent"], res["sent"][1:]):
+        for n, (a, b) in enumerate(zip(res["sent"], res["sent"][1:])):
+            if n + 1 in res["restart_marks"]:
+                continue  # first send of a restarted queue: spacing across stop()/start() is not claimed
             if b["t"] - a["t"] < 1.0 / r - TOL:
                 ctx.fail("C33:rate-limit", case, f"rate limit {r}/s: sends of #{a['i']} and #{b['i']} started {b['t'] - a['t']:.6f} s apart (< {1.0 / r:.6f})")
                 break
